@@ -143,6 +143,7 @@ let judge_arith (lhs : string list) (rhs : string list) (line : string) =
     let xd = dec_req x in
     let k = mkCase ORound c xd xd Z0 ANone xd in      (* for the fit oracle only *)
     report line ((if opn = "Sqrt" then oracle_sqrt c xd o else oracle_cbrt c xd o)
+                 @ (if !prop = "C11" then corr_root (opn = "Cbrt") c xd o else [])
                  @ (if is_finite o.o_dec && err_eqb_none o then oracle_c07 k o else [])
                  @ (match xpost with "_" -> [] | t -> if t = x then [] else [z_of_int 7]))
   | [_; opn; p; emax; emin; traps; rnd; x; y; e; al; dpre], [d; cnd; er; extra; xpost; ypost; ctxsame] ->
@@ -253,6 +254,10 @@ let judge_line (line : string) =
   match lhs, rhs with
   | _, "PANIC" :: _ -> incr fails; Printf.printf "FAIL 90 :: %s\n" line
   | "ar" :: _, _ -> judge_arith lhs rhs line
+  | ["ndp"; k; delta; _sign], [n] ->
+      Hashtbl.replace nontrivial (k ^ delta) ();
+      bump opcount "NumDigitsPow10";
+      report line (judge_numdigits_pow10 (z_of_dec_string k) (z_of_dec_string delta) (z_of_dec_string n))
   | ["nd"; b], [n] ->
       Hashtbl.replace nontrivial b ();
       report line (judge_numdigits (z_of_hex b) (z_of_dec_string n))
